@@ -154,10 +154,13 @@ def project(obj, ev0):
         out["ev"] = "none"
     else:
         lev = float(np.asarray(smcdrv.to_np(le)).reshape(-1)[0])
+        lerr = getattr(obj, "log_evidence_error", None)
+        lerr = None if lerr is None else float(np.asarray(smcdrv.to_np(lerr)).reshape(-1)[0])
+        # the evidence a set carries is the estimate *and* its error estimate
         if abs(lev - EV_ATTACHED) < 1e-9:
-            out["ev"] = "attached"
-        elif ev0 is not None and abs(lev - ev0) <= 1e-5 * (1 + abs(ev0)):
-            out["ev"] = "own"
+            out["ev"] = "attached" if (lerr is not None and abs(lerr - EVERR_ATTACHED) < 1e-9) else f"attached-with-other-error:{lerr!r}"
+        elif ev0 is not None and abs(lev - ev0[0]) <= 1e-5 * (1 + abs(ev0[0])):
+            out["ev"] = "own" if (lerr is not None and abs(lerr - ev0[1]) <= (1e-5 if 32 in (out["width"], ev0[2]) else 1e-9) * (1 + abs(ev0[1]))) else f"own-with-other-error:{lerr!r} (original {ev0[1]!r})"
         else:
             out["ev"] = f"other:{lev:.6g}"
     return out
@@ -172,7 +175,8 @@ def run_case(arg):
         ev0 = None
         if init["ev"] == "own":
             import smcdrv
-            ev0 = float(np.asarray(smcdrv.to_np(obj.log_evidence)).reshape(-1)[0])
+            ev0 = (float(np.asarray(smcdrv.to_np(obj.log_evidence)).reshape(-1)[0]),
+                   float(np.asarray(smcdrv.to_np(obj.log_evidence_error)).reshape(-1)[0]), init["width"])
         for k, op in enumerate(case["ops"]):
             label = op["op"] + (":" + op["sel"]["form"] if op["op"] == "select" else "") + \
                 (":" + op.get("ns", "") if op["op"] in ("to_namespace", "from_samples") else "") + \
@@ -223,7 +227,7 @@ def main(prop, tier, seed, replay_path=None):
     rnd = random.Random(seed + 11)
     verdict = Verdict(prop)
     mode = "algebra" if prop == "C16" else "convert"
-    nss = ["numpy", "torch", "jax"] if tier != "quick" else ["numpy", ["torch", "jax"][seed % 2]]
+    nss = ["numpy", "torch", "jax"]
     consts = {"NRows": "= 4", "Classes": '= {"Base", "Samples", "SMC"}',
               "Namespaces": "= {" + ", ".join(f'"{n}"' for n in nss) + "}",
               "Widths": "= {32, 64}", "Depth": "= 2", "Mode": f'= "{mode}"'}
